@@ -322,14 +322,28 @@ SINK_RX = r"PrimeField>::from_bigint$"
 
 
 def check_sinks(ctx, fb):
-    fns = [("Operation::eval_fr", lambda i: bool(re.search(r"graph::(shl|bit_and|bit_or|bit_xor|u256_to_fr|fr_to_u256)$", i.path))),
+    # helpers of graph.rs that (transitively) hand a value to from_bigint are evaluated as part of the operator that calls them,
+    # whatever they are called and however many levels of helpers (or closures) a refactor puts in between; shr is decided separately
+    _reaches = {}
+
+    def reaches_sink(i):
+        if i.path not in _reaches:
+            if i.kind == "Closure":
+                _reaches[i.path] = True
+            elif not (i.file or "").endswith("iden3calc/graph.rs") or re.search(r"graph::shr$|eval_fr$|::eval$", i.path):
+                _reaches[i.path] = False
+            else:
+                seen, ext, _ = reach(fb, [i.path])
+                _reaches[i.path] = any(re.search(SINK_RX, n) for n in ext) or bool(re.search(r"graph::(u256_to_fr|fr_to_u256)$", i.path))
+        return _reaches[i.path]
+    fns = [("Operation::eval_fr", reaches_sink),
            ("UnoOperation::eval_fr", lambda i: False), ("TresOperation::eval_fr", lambda i: False)]
     n = 0
     duo = OPS
     for fn, inl in fns:
         it = fb.need(G + fn)
         ctx.touch(it)
-        eng = Engine(fb, inline=inl, max_depth=3)
+        eng = Engine(fb, inline=inl, max_depth=5)
         per = {}
         for p in eng.run(it):
             cm = cond_map(p)
